@@ -7,6 +7,7 @@ import (
 	"golang.org/x/tools/go/ssa"
 
 	"rtcpverif/core"
+	"rtcpverif/effects"
 	"rtcpverif/num"
 )
 
@@ -17,7 +18,7 @@ func checkC17(c *Ctx) {
 	p := c.Prog
 	r.Explain = "The numeric abstract interpreter of C01 applied to every String() method of the package, stringify and formatField, with an UNCONSTRAINED receiver (every field value, every list length): every index, slice, nil dereference, division, type assertion and loop must be proved safe/terminating at the instruction. fmt.Sprintf/Sprint are modelled as total (fmt recovers panics of nested String methods itself). Reflection in formatField: every reflect call with a precondition must be dominated by its guard."
 	r.RuleText = "B-IDX, B-SLC, B-NIL, B-DIV, B-TAS, T-LOOP (as in C01) over the universe reachable from the 21+ String methods; B-RFL for formatField; enum String methods return on every path (go/ssa would otherwise contain a missing return panic)."
-	r.Trusted = []string{"go/ssa", "numeric engine checker/num", "fmt.Sprintf/Sprint/Sprintln and strings.* are total", "reflect model (B-RFL guard table)"}
+	r.Trusted = []string{"go/ssa", "numeric engine checker/num", "fmt.Sprintf/Sprint/Sprintln, fmt.Fprint* into a non-nil *strings.Builder / *bytes.Buffer, strconv.Itoa/Format* and strings.* are total", "reflect model (B-RFL guard table)"}
 	r.Assume = []string{
 		"receivers are non-nil; elements of []ReportBlock, []PacketStatusChunk, []*RecvDelta and []Packet are non-nil and do not hold nil pointers (the property's 'decoded or well-formed' domain; the decoders append only fresh allocations, checked as B-NIL facts by C01)",
 		"no slice longer than 2^50; 64-bit int arithmetic on lengths does not overflow",
@@ -106,9 +107,21 @@ func runNumRootsOpt(c *Ctx, res *numResult, specs []string, opt num.RootOptions)
 			jobs = append(jobs, job{fn, s})
 		}
 	}
+	// Every root is analysed for every receiver, so a call of one root from another (members of a
+	// compound packet, nested String methods reached through fmt.Stringer) adds nothing; effect-free
+	// roots are left opaque inside the other roots.
+	an := effects.New(c.Prog.SPkg, c.Prog.Funcs, c.Prog.CallGraph(), nil)
+	pure := pureFn(an)
 	results := make([]*num.Engine, len(jobs))
 	parallelFor(len(jobs), func(i int) {
 		e := newNumEngine(c, nil)
+		e.LoadGVN = true
+		e.Opaque = map[*ssa.Function]bool{}
+		for j := range jobs {
+			if j != i && jobs[j].fn.Name() == "String" && pure(jobs[j].fn) {
+				e.Opaque[jobs[j].fn] = true
+			}
+		}
 		func() {
 			defer func() {
 				if r := recover(); r != nil {
